@@ -20,6 +20,9 @@ CLAIMED = {
  "C09": dict(text="Coq theorems for ALL operands: numbers of any kind (exact comparison of rational values): trichotomy, <= = (< or ==), > / >= as operand reversal, != = 1 - ==, every result the number 0 or 1; the same for quantities of one dimension (and a number against a dimensionless quantity) through the quantity wrapper, equality = equality of base-unit magnitudes; lazy combinatorics compare as their eager values (uses C05's relation); instants via the microsecond count; `in` is 0/1 and 1 iff some element is equal. Correspondence: all ordered pairs within each comparable group of a 31+8+5+7 value pool x 6 operators (exhaustive) + membership through execute(): coherence relations on the implementation's own displayed results, exact-value oracle, and model predictions.",
              note="Trusted: Coq kernel; Python's cross-type numeric comparison is exact (modelled as comparison of toQ); datetime comparison = comparison of microsecond counts (C17).",
              technique="Coq proof (case analysis on Qcompare / Z order, reuse of C05 relation) + exhaustive-pool differential and metamorphic correspondence", ref="6/C09"),
+ "C13": dict(text="General Coq theorems for ANY registry (a registered spelling always wins, unscaled; a prefixed spelling with no other reading resolves to that prefix applied to that unit; apply_prefix multiplies or refuses an offset unit; every reading comes byte-for-byte from the tables, hence case-sensitive) and, over the registry regenerated from the live ka.units on every run, theorems by vm_compute reflection lifted with forallb_forall: three spellings per unit, every prefix x unit x spelling scales by exactly base^exp, offset units refuse prefixes, SI dimensions and sizes within 1% against a hand-written reference table of physical definitions (fail-closed for units without an entry), 83 definitional ratios (exact / 1e-12), offsets. Ratios among sizes Ka stores rounded (16 oz/lb, 14 lb/st, ...) are proved only within 2% (C13_rounded_ratios_partial). Correspondence: every unit x 3 spellings x 26 prefix options, live lookup_unit vs the model in the Coq VM, plus conversions through execute().",
+             note="Trusted: Coq kernel; translator (live dump of units/prefixes/maps); the hand-written reference table Proofs/UnitSpec.v; currencies checked for dimension only (rates are C20).",
+             technique="Coq proof (general lemmas by induction on the prefix scan + vm_compute reflection over the regenerated registry) + exhaustive differential correspondence", ref="6/C13"),
 }
 PENDING = {}
 ALL = ["C%02d" % i for i in range(1, 21)]
